@@ -30,6 +30,7 @@ type reentry struct {
 	writers    *sync.WaitGroup
 	parked     *int32
 	label      string
+	sameType   bool
 }
 
 var writerCtr int64
@@ -48,11 +49,17 @@ func (re *reentry) enter(ctx context.Context) {
 			frame = "eventlogger.(*Broker).SetSuccessThreshold"
 		case "pipe":
 			frame = "eventlogger.(*Broker).Re" // RegisterPipeline or RemovePipeline
+		case "reopen":
+			frame = "eventlogger.(*Broker).Reopen"
 		}
 		go func() {
 			defer re.writers.Done()
 			defer close(done)
 			switch re.writerKind {
+			case "reopen":
+				// not a writer of the registry, but a Broker operation that may want to wait for what is in flight
+				re.b.Reopen(context.Background())
+				return
 			case "setthr":
 				re.b.SetSuccessThreshold("to", 0)
 				re.b.SetSuccessThresholdSinks("to", 0)
@@ -89,6 +96,10 @@ func (re *reentry) enter(ctx context.Context) {
 			}
 			time.Sleep(200 * time.Microsecond)
 		}
+	}
+	if re.sameType {
+		re.b.Send(ctx, "to", &Tok{S: "inner-" + re.label})
+		return
 	}
 	re.b.Send(ctx, "ti", &Tok{S: "inner-" + re.label})
 }
@@ -128,12 +139,34 @@ type c12Scenario struct {
 	WKind    string // kind of the concurrent writer: "" = RegisterNode, "setthr" = threshold setters
 	Pending  int    // gated pending groups
 	FailSend int    // the gated filter's first FailSend re-entrant sends report an error
+	SameType bool   // the re-entrant Send goes to the event type of the Send it is made from
+	Loop     bool   // the gated payloads are an application's own Gateable whose ComposeFrom returns a Gateable flush payload
+}
+
+// loopPayload is an application-defined Gateable that composes to a Gateable (flush) payload of the type the
+// filter's own pipeline is registered for. The interface asks implementations not to; the filter defends itself
+// (the group is refused), and whatever it does, the Broker call that triggered the flush has to return.
+type loopPayload struct {
+	ID    string
+	Flush bool
+}
+
+func (l *loopPayload) GetID() string    { return l.ID }
+func (l *loopPayload) FlushEvent() bool { return l.Flush }
+func (l *loopPayload) ComposeFrom(events []*eventlogger.Event) (eventlogger.EventType, interface{}, error) {
+	return "to", &loopPayload{ID: "composed", Flush: true}, nil
 }
 
 func (s c12Scenario) String() string {
 	w := fmt.Sprint(s.Writer)
 	if s.Writer && s.WKind != "" {
 		w = s.WKind
+	}
+	if s.SameType {
+		w += "/same-type"
+	}
+	if s.Loop {
+		w += "/gateable-composite"
 	}
 	if s.FailSend > 0 {
 		return fmt.Sprintf("%s/%s/writer=%s/pending=%d/failsend=%d", s.Op, s.Callback, w, s.Pending, s.FailSend)
@@ -249,7 +282,7 @@ func runC12Scenario(run *rt.Run, sc c12Scenario) {
 	log := &Log{}
 	var writers sync.WaitGroup
 	var parked int32
-	re := &reentry{b: b, parkWriter: sc.Writer, writerKind: sc.WKind, writers: &writers, parked: &parked, label: sc.String()}
+	re := &reentry{b: b, parkWriter: sc.Writer, writerKind: sc.WKind, writers: &writers, parked: &parked, label: sc.String(), sameType: sc.SameType}
 	must := func(err error) {
 		if err != nil {
 			panic(fmt.Sprintf("setup %s: %v", sc, err))
@@ -265,7 +298,12 @@ func runC12Scenario(run *rt.Run, sc c12Scenario) {
 	x := NewRecNode(log, "x", eventlogger.NodeTypeFilter, 1, fixedBeh(Pass))
 	switch sc.Callback {
 	case "process":
-		x.OnProcess = func(ctx context.Context, n *RecNode, e *eventlogger.Event, ent *Entry) { re.enter(ctx) }
+		x.OnProcess = func(ctx context.Context, n *RecNode, e *eventlogger.Event, ent *Entry) {
+			if tok, ok := e.Payload.(*Tok); sc.SameType && ok && strings.HasPrefix(tok.S, "inner-") {
+				return // the re-entrant Send of the same type reaches this node again; it does not re-enter twice
+			}
+			re.enter(ctx)
+		}
 	case "close":
 		x.OnClose = func(ctx context.Context, n *RecNode) { re.enter(ctx) }
 	case "reopen":
@@ -291,6 +329,10 @@ func runC12Scenario(run *rt.Run, sc c12Scenario) {
 	if gatedMode {
 		for i := 0; i < sc.Pending; i++ {
 			if !underWatchdog(run, sc, "Send (gating an event)", "eventlogger.(*Broker).Send", func() {
+				if sc.Loop {
+					b.Send(ctx, "to", &loopPayload{ID: fmt.Sprintf("g%d", i)})
+					return
+				}
 				b.Send(ctx, "to", &gated.Payload{ID: fmt.Sprintf("g%d", i), Detail: map[string]interface{}{"k": i}})
 			}) {
 				return
@@ -307,6 +349,9 @@ func runC12Scenario(run *rt.Run, sc c12Scenario) {
 			var p interface{} = &Tok{S: "outer"}
 			if gatedMode {
 				p = &gated.Payload{ID: "trigger"}
+				if sc.Loop {
+					p = &loopPayload{ID: "trigger"}
+				}
 			}
 			b.Send(ctx, "to", p)
 		})
@@ -412,7 +457,7 @@ func runC12Scenario(run *rt.Run, sc c12Scenario) {
 			run.Violation("deadlock:"+sc.Op+"/"+sc.Callback+"/parked-writer", "a RegisterNode that was waiting for the lock during the call never returned", map[string]any{"scenario": sc.String()})
 		}
 	}
-	if gatedMode && sc.Pending > 0 && ok && (sc.Op == "rmpipenodes" || sc.Op == "rmnode" || (sc.Op == "send" && sc.Callback == "gated-expire")) {
+	if gatedMode && !sc.Loop && sc.Pending > 0 && ok && (sc.Op == "rmpipenodes" || sc.Op == "rmnode" || (sc.Op == "send" && sc.Callback == "gated-expire")) {
 		if atomic.LoadInt32(&ps.sends) == 0 {
 			run.Inconclusive("the gated filter never re-entered the Broker in " + sc.String())
 		} else {
@@ -465,6 +510,27 @@ func TestC12(t *testing.T) {
 			scs = append(scs, sc)
 			sc.WKind = "pipe"
 			scs = append(scs, sc)
+		}
+	}
+	// a Broker.Reopen arriving while the re-entrant call is in flight (Reopen takes no part in the registry lock)
+	for _, sc := range append([]c12Scenario(nil), scs...) {
+		if sc.Writer && sc.WKind == "" && sc.Callback != "none" && sc.Callback != "reopen" && sc.Op != "reopen-fail" {
+			sc.WKind = "reopen"
+			scs = append(scs, sc)
+		}
+	}
+	// a node that re-enters Send with the event type of the Send it runs in
+	for _, wk := range []string{"-", "", "setthr", "pipe", "reopen"} {
+		scs = append(scs, c12Scenario{Op: "send", Callback: "process", Writer: wk != "-", WKind: strings.TrimPrefix(wk, "-"), SameType: true})
+	}
+	// an application's Gateable whose composite is itself a Gateable flush event for the filter's own pipeline
+	for _, w := range []bool{false, true} {
+		for p := 1; p <= 2; p++ {
+			scs = append(scs,
+				c12Scenario{Op: "send", Callback: "gated-expire", Writer: w, Pending: p, Loop: true},
+				c12Scenario{Op: "rmpipenodes", Callback: "gated-close", Writer: w, Pending: p, Loop: true},
+				c12Scenario{Op: "rmnode", Callback: "gated-close", Writer: w, Pending: p, Loop: true},
+			)
 		}
 	}
 	// gated flushes whose re-entrant Send reports an error (expiry during Process, Close during removal)
